@@ -11,7 +11,7 @@ gvars == <<rpvars, hist>>
 Base == [k |-> "q", ct |-> "", name |-> "", lname |-> "", hasname |-> TRUE, nameok |-> TRUE,
          type |-> "text", count |-> "none", tl |-> FALSE, lh |-> TRUE, media |-> FALSE, list |-> "",
          listkind |-> "", other |-> FALSE, filt |-> FALSE, hascalc |-> FALSE, dyn |-> "none",
-         trig |-> FALSE, cattrs |-> <<>>, tlapp |-> "field-list", warns |-> <<>>, shape |-> "text"]
+         trig |-> FALSE, refs |-> <<>>, cattrs |-> <<>>, tlapp |-> "field-list", warns |-> <<>>, shape |-> "text"]
 With(f) == f @@ Base
 Nm == "n" \o ToString(rowno)
 Pool == IF Mode = "ok" THEN {Nm} ELSE {"a", "A", "b", "a_count", "a_other", "meta", "data"}
